@@ -85,8 +85,11 @@ type sysProc struct {
 	cmd    *exec.Cmd
 	logp   string
 	done   chan struct{}
-	exit   error
+	exit   *error // set when the process has ended (shared with relaunched copies)
 	strace bool
+	// relaunch starts the same configuration again on a fresh port (used when
+	// the chosen port was taken by someone else in the meantime)
+	relaunch func() *sysProc
 }
 
 func newSysFixture(r *Run, rng *Rng) *sysFixture {
@@ -231,7 +234,8 @@ func (f *sysFixture) writeConfig(name string, port int, periodMs int) string {
 // start launches the binary; inject is an optional strace fault expression
 // such as "fsync:signal=KILL:when=7".
 func (f *sysFixture) start(name string, cacheName string, periodMs int, inject string) *sysProc {
-	p := &sysProc{Name: name, Port: freePort(), done: make(chan struct{})}
+	p := &sysProc{Name: name, Port: freePort(), done: make(chan struct{}), exit: new(error)}
+	p.relaunch = func() *sysProc { return f.start(name, cacheName, periodMs, inject) }
 	cfg := f.writeConfig(cacheName, p.Port, periodMs)
 	p.logp = filepath.Join(f.Base, fmt.Sprintf("proc-%s-%d.log", name, f.nextID.Add(1)))
 	lf, _ := os.Create(p.logp)
@@ -252,7 +256,7 @@ func (f *sysFixture) start(name string, cacheName string, periodMs int, inject s
 		panic(err)
 	}
 	go func() {
-		p.exit = p.cmd.Wait()
+		*p.exit = p.cmd.Wait()
 		lf.Close()
 		close(p.done)
 	}()
@@ -306,8 +310,14 @@ func (p *sysProc) logTail() string {
 // by then) or the process exits. Wall clock only bounds the wait.
 func (p *sysProc) waitReady(d time.Duration) bool {
 	deadline := time.Now().Add(d)
-	for time.Now().Before(deadline) {
+	for tries := 0; time.Now().Before(deadline); {
 		if !p.alive() {
+			if tries < 3 && strings.Contains(p.logTail(), "failed to listen") {
+				// the port picked for it was taken meanwhile: same start again
+				tries++
+				*p = *p.relaunch()
+				continue
+			}
 			return false
 		}
 		c, err := net.DialTimeout("tcp", fmt.Sprintf("127.0.0.1:%d", p.Port), 200*time.Millisecond)
@@ -671,7 +681,7 @@ func runSysCrashCase(r *Run, rng *Rng, cycles int) {
 		}
 		p := f.start("P", "main", f.PeriodMs, inject)
 		note("cycle %d: start mode=%s inject=%q", cyc, mode, inject)
-		ready := p.waitReady(20 * time.Second)
+		ready := p.waitReady(60 * time.Second)
 		if !ready {
 			if p.alive() {
 				p.kill()
@@ -710,7 +720,7 @@ func runSysCrashCase(r *Run, rng *Rng, cycles int) {
 	}
 	// ---- idle restart: recovery only, no sequencing -------------------------
 	p := f.start("P", "main", 3_600_000, "")
-	if !p.waitReady(30 * time.Second) {
+	if !p.waitReady(90 * time.Second) {
 		if p.alive() {
 			p.kill()
 			r.Inconcl("idle restart did not become ready within the watchdog")
@@ -733,7 +743,7 @@ func runSysCrashCase(r *Run, rng *Rng, cycles int) {
 	p.interrupt(5 * time.Second)
 	// ---- the log keeps sequencing -------------------------------------------
 	p = f.start("P", "main", f.PeriodMs, "")
-	if !p.waitReady(30 * time.Second) {
+	if !p.waitReady(90 * time.Second) {
 		if p.alive() {
 			p.kill()
 			r.Inconcl("final restart did not become ready within the watchdog")
@@ -822,7 +832,7 @@ func runSysTwoCase(r *Run, rng *Rng) {
 	f.info["workload"] = "two-processes"
 	f.startPolling()
 	a := f.start("A", "a", f.PeriodMs, "")
-	if !a.waitReady(20 * time.Second) {
+	if !a.waitReady(60 * time.Second) {
 		a.kill()
 		r.Inconcl("first process did not become ready: %s", a.logTail())
 		return
@@ -835,7 +845,7 @@ func runSysTwoCase(r *Run, rng *Rng) {
 	var b *sysProc
 	for try := 0; try < 6; try++ {
 		b = f.start("B", "b", f.PeriodMs, "")
-		if b.waitReady(20 * time.Second) {
+		if b.waitReady(60 * time.Second) {
 			break
 		}
 		if b.alive() {
@@ -894,7 +904,7 @@ func runSysTwoCase(r *Run, rng *Rng) {
 			surv = p.Name
 		} else {
 			r.Count("sys_process_stopped:"+p.Name, 1)
-			if p.exit == nil {
+			if *p.exit == nil {
 				f.violate("loser-exited-without-error", "process %s stopped with exit status 0", p.Name)
 			}
 			if !strings.Contains(p.logTail(), "sequencer error") && !strings.Contains(p.logTail(), "failed to") && !strings.Contains(p.logTail(), "fatal") {
@@ -910,7 +920,7 @@ func runSysTwoCase(r *Run, rng *Rng) {
 	}
 	// a fresh start must load and sequence; then the final state is judged
 	p := f.start("C", "c", f.PeriodMs, "")
-	if !p.waitReady(30 * time.Second) {
+	if !p.waitReady(90 * time.Second) {
 		if p.alive() {
 			p.kill()
 			r.Inconcl("restart did not become ready within the watchdog")
@@ -963,7 +973,7 @@ func TestSysAcks(t *testing.T) {
 	f.info["workload"] = "sysacks"
 	f.startPolling()
 	p := f.start("P", "main", f.PeriodMs, "")
-	if !p.waitReady(30 * time.Second) {
+	if !p.waitReady(90 * time.Second) {
 		p.kill()
 		r.Inconcl("process did not become ready: %s", p.logTail())
 		return
@@ -1046,7 +1056,7 @@ func TestSysSunset(t *testing.T) {
 		return &sysChain{ID: id, Body: c09Body(c09Knobs{Body: "ok"}, b.chain), Built: b}
 	}
 	p := f.start("P", "main", f.PeriodMs, "")
-	if !p.waitReady(30 * time.Second) {
+	if !p.waitReady(90 * time.Second) {
 		p.kill()
 		r.Inconcl("process did not become ready: %s", p.logTail())
 		return
@@ -1070,7 +1080,7 @@ func TestSysSunset(t *testing.T) {
 	// ---- read-only --------------------------------------------------------
 	f.windowStart, f.windowLimit = now.Add(-400*24*time.Hour), now.Add(-30*24*time.Hour)
 	p = f.start("P", "main", f.PeriodMs, "")
-	if !p.waitReady(30 * time.Second) {
+	if !p.waitReady(90 * time.Second) {
 		if p.alive() {
 			p.kill()
 			r.Inconcl("read-only start did not become ready within the watchdog")
